@@ -39,6 +39,8 @@ impl Sym for u16 {
 struct HSlot<B: Sym> {
     c: HuffmanContainer<B>,
     ids: Vec<(usize, usize)>,
+    /// what was pushed for each id (the owned value a comparison of read items must agree with)
+    vals: Vec<Value>,
     first_reads: Vec<Value>,
     dead: bool,
 }
@@ -112,7 +114,7 @@ const FORMS: [&str; 5] = ["slice", "vec", "ref_vec", "array", "ref_array"];
 
 /// Execute one scenario; append its events to `out`. `probe` = symbols whose code length is measured.
 pub fn run_scenario<B: Sym, W: Write>(run: u64, ops: &[Value], nslots: usize, probe: &[u64], out: &mut W) {
-    let mut slots: Vec<HSlot<B>> = (0..nslots).map(|_| HSlot { c: HuffmanContainer::default(), ids: vec![], first_reads: vec![], dead: false }).collect();
+    let mut slots: Vec<HSlot<B>> = (0..nslots).map(|_| HSlot { c: HuffmanContainer::default(), ids: vec![], vals: vec![], first_reads: vec![], dead: false }).collect();
     writeln!(out, "{}", json!({"ev": "reset", "run": run, "ty": B::NAME, "nslots": nslots})).unwrap();
     let mut seq = 0u64;
     for (opi, op) in ops.iter().enumerate() {
@@ -172,6 +174,7 @@ pub fn run_scenario<B: Sym, W: Write>(run: u64, ops: &[Value], nslots: usize, pr
                     Ok(idx) => {
                         let sl = &mut slots[s];
                         sl.ids.push(idx);
+                        sl.vals.push(json_of(&v));
                         let (read, onto_ok) = read_item_full(&sl.c, idx);
                         // re-read every earlier item: must still render as when first read
                         let mut stable = true;
@@ -219,7 +222,7 @@ pub fn run_scenario<B: Sym, W: Write>(run: u64, ops: &[Value], nslots: usize, pr
                                 Err(_) => cl = c.clone(),
                             }
                         }
-                        slots[d] = HSlot { c, ids: vec![], first_reads: vec![], dead: false };
+                        slots[d] = HSlot { c, ids: vec![], vals: vec![], first_reads: vec![], dead: false };
                         writeln!(out, "{}", json!({"ev": "merge", "run": run, "seq": seq, "d": d + 1, "srcs": op["srcs"], "panic": false, "lens": lens})).unwrap();
                     }
                 }
@@ -252,6 +255,7 @@ pub fn run_scenario<B: Sym, W: Write>(run: u64, ops: &[Value], nslots: usize, pr
                             slots[d].c = c;
                         }
                         slots[d].ids = slots[sidx].ids.clone();
+                        slots[d].vals = slots[sidx].vals.clone();
                         slots[d].first_reads = slots[sidx].first_reads.clone();
                         slots[d].dead = false;
                         // the copy reads like the source at every issued index
@@ -275,6 +279,7 @@ pub fn run_scenario<B: Sym, W: Write>(run: u64, ops: &[Value], nslots: usize, pr
                     guarded(|| c.clear())
                 };
                 slots[s].ids.clear();
+                slots[s].vals.clear();
                 slots[s].first_reads.clear();
                 writeln!(out, "{}", json!({"ev": "clear", "run": run, "seq": seq, "s": s + 1, "panic": r.is_err()})).unwrap();
                 if r.is_err() {
@@ -299,8 +304,8 @@ pub fn run_scenario<B: Sym, W: Write>(run: u64, ops: &[Value], nslots: usize, pr
                     json!({"eq": x == y, "partial_cmp": o(x.partial_cmp(&y)), "cmp": o(Some(x.cmp(&y))), "rev_cmp": o(Some(y.cmp(&x)))})
                 });
                 match r {
-                    Ok(v) => writeln!(out, "{}", json!({"ev": "cmp", "run": run, "seq": seq, "s": a + 1, "i": i, "s2": b + 1, "i2": j, "panic": false, "r": v})).unwrap(),
-                    Err(m) => writeln!(out, "{}", json!({"ev": "cmp", "run": run, "seq": seq, "s": a + 1, "i": i, "s2": b + 1, "i2": j, "panic": true, "msg": m})).unwrap(),
+                    Ok(v) => writeln!(out, "{}", json!({"ev": "cmp", "run": run, "seq": seq, "s": a + 1, "i": i, "s2": b + 1, "i2": j, "va": slots[a].vals[i], "vb": slots[b].vals[j], "panic": false, "r": v})).unwrap(),
+                    Err(m) => writeln!(out, "{}", json!({"ev": "cmp", "run": run, "seq": seq, "s": a + 1, "i": i, "s2": b + 1, "i2": j, "va": slots[a].vals[i], "vb": slots[b].vals[j], "panic": true, "msg": m})).unwrap(),
                 }
             }
             o => {
